@@ -21,9 +21,10 @@ THEOREMS = [
 ]
 RULE = ("seeded generator; exact family = dyadic start/stop, n-1 in {1,2,4,8,16,32}, 1-6 bars with end points on "
         "multiples of step/4 (classes on_grid, half_tie, off_grid, mixed, narrow (no node gets a value), defaults "
-        "(start/stop None), inf (infinite bars, several degrees), scale 2^+-20, dup (repeated bars), errors), compared "
+        "(user fixes none / start only / stop only of the grid ends; also 8% of every other class), inf (infinite bars, several degrees), scale 2^+-20, dup (repeated bars), errors), compared "
         "exactly; tolerance family = random doubles, 2-40 nodes, end points at least 1e-6*step away from half-way points, "
-        "compared within 1e-9*scale; size class (3 cases quick / 12 thorough) = 2200-6000 mostly short bars on 257/500/513-node "
+        "compared within 1e-9*scale, a quarter of them with only one or no grid end fixed; the transformer is observed fresh "
+        "(flatten off/on) and refitted after a fit on other data; size class (3 cases quick / 12 thorough) = 2200-6000 mostly short bars on 257/500/513-node "
         "grids (num_steps x bars > 2^20; default grid and explicit grids; largest death = stop or in the upper half of the "
         "last cell): the independent predicate checks the half-step bound for all depths at 6 fixed nodes (first two, last "
         "four) and 6 random nodes, landscaper == approx and the death vector; the Coq model is NOT run on these (verdict "
@@ -86,7 +87,11 @@ def _exact_case(rng, cls, big=False):
     if cls == "dup" and bars:
         bars += [list(rng.choice(bars)) for _ in range(rng.randint(1, 2))]
         bars = bars[:12 if big else 6]
-    use_defaults = cls == "defaults" or (cls == "inf" and rng.random() < 0.4)
+    # which grid ends the user fixes: both / none / start only / stop only (the configured end then lies at or
+    # beyond the extreme birth / death, so the grid still covers the diagram)
+    fix = "both"
+    if cls == "defaults" or (cls == "inf" and rng.random() < 0.4) or rng.random() < 0.08:
+        fix = rng.choice(["none", "start", "stop"])
     dgms, hom_deg = [bars], 0
     if cls == "inf":
         for _ in range(rng.randint(1, 2)):
@@ -97,12 +102,39 @@ def _exact_case(rng, cls, big=False):
         else:
             dgms, hom_deg = [bars, other], 0
     c = {"cls": cls, "family": "exact", "dgms": dgms, "hom_deg": hom_deg, "n": n,
-         "start": None if use_defaults else start, "stop": None if use_defaults else stop,
+         "start": start if fix in ("both", "start") else None, "stop": stop if fix in ("both", "stop") else None,
+         "fix": fix,
          "rep": "int" if rng.random() < 0.3 else "float"}
     return c
 
 
 def _tol_case(rng, big=False):
+    """random doubles; in a quarter of the cases the user fixes only one grid end (or none): the case is kept only
+    if every end point stays away from the half-way points of the grid that results"""
+    for _ in range(50):
+        c = _tol_case_both(rng, big)
+        fix = rng.choice(["both", "both", "both", "both", "both", "none", "start", "stop"])
+        if fix == "both":
+            return c
+        bars = [(Fraction(b), Fraction(d)) for b, d in c["dgms"][0]]
+        fs = Fraction(c["start"]) if fix == "start" else min(b for b, _ in bars)
+        fe = Fraction(c["stop"]) if fix == "stop" else max(d for _, d in bars)
+        if not fs < fe:
+            continue
+        step = (fe - fs) / (c["n"] - 1)
+
+        def ok(x):
+            u = (x - fs) / step
+            return abs(u - (u.numerator // u.denominator) - Fraction(1, 2)) > Fraction(1, 10 ** 6)
+        if all(ok(x) for bd in bars for x in bd):
+            c["start"] = c["start"] if fix == "start" else None
+            c["stop"] = c["stop"] if fix == "stop" else None
+            c["fix"] = fix
+            return c
+    return _tol_case_both(rng, big)
+
+
+def _tol_case_both(rng, big=False):
     n = rng.choice([rng.randint(2, 40), rng.randint(5, 40), rng.randint(10, 40)] + ([rng.randint(41, 120)] if big else []))
     start = rng.choice([rng.uniform(-5, 5), 0.0, rng.uniform(-1e3, 1e3), rng.uniform(0, 1e-3)])
     width = rng.choice([rng.uniform(0.1, 10), rng.uniform(1e-3, 1e-1), rng.uniform(10, 1e3), 1.0])
@@ -133,7 +165,7 @@ def _tol_case(rng, big=False):
         if rng.random() < 0.08:
             bars.append([b, d])                    # a repeated bar
     return {"cls": "tol", "family": "tol", "dgms": [bars], "hom_deg": 0, "n": n, "start": start, "stop": stop,
-            "rep": "float"}
+            "rep": "float", "fix": "both"}
 
 
 BIG_KINDS = ["big_default500", "big_explicit513", "big_explicit257", "big_explicit500"]
@@ -344,13 +376,22 @@ def impl_run(cases):
                 r["start"], r["stop"], r["max_depth"] = float(p.start), float(p.stop), int(p.max_depth)
                 return r
             o["approx"] = core.guarded(approx)
-            inf_grid = (c["stop"] is None and c["hom_deg"] < len(c["dgms"])
+            # the transformer learns missing grid ends from the RAW diagram (infinite bars included): outside "finite
+            # diagrams" as soon as an end is learned and the degree has an infinite bar
+            inf_grid = ((c["stop"] is None or c["start"] is None) and c["hom_deg"] < len(c["dgms"])
                         and any(d == "inf" for _, d in c["dgms"][c["hom_deg"]]))
             if inf_grid:
-                o["land"] = o["flat"] = {"skip": "infinite death with stop=None"}
+                o["land"] = o["flat"] = {"skip": "infinite bar with a learned grid end"}
             else:
                 o["land"] = core.guarded(lambda: _enc_values(PersistenceLandscaper(flatten=False, **kw).fit_transform(arrs())))
                 o["flat"] = core.guarded(lambda: _enc_values(PersistenceLandscaper(flatten=True, **kw).fit_transform(arrs())))
+
+                def refit():
+                    # the same object fitted on OTHER data first: user-fixed ends stay, learned ends are learned afresh
+                    t = PersistenceLandscaper(flatten=False, **kw)
+                    t.fit([3.0 * a.astype(float) - 1.0 for a in arrs()])
+                    return _enc_values(t.fit_transform(arrs()))
+                o["refit"] = core.guarded(refit)
             if c.get("vec"):
                 def vec():
                     e = PersLandscapeExact(dgms=arrs(), hom_deg=c["hom_deg"])
@@ -456,9 +497,9 @@ def predicate(c, o):
                                % (k, i, float(g), float(v), float(true), float(abs(v - true)), float(bound),
                                   " (all end points on the grid: must be exact)" if on_grid else ""))
     # the transformer returns the approximate class's values
-    for key, flat in (("land", False), ("flat", True)):
+    for key, flat in (("land", False), ("flat", True), ("refit", False)):
         t = o.get(key, {})
-        if "skip" in t:
+        if "skip" in t or (key == "refit" and not t):
             continue
         bad = _numeric(t, key)
         if bad:
@@ -466,7 +507,8 @@ def predicate(c, o):
         want = [x for r in rows for x in r] if flat else rows
         got = t["rows"]
         if got != want:
-            return False, "landscaper(%s): transformer output differs from PersLandscapeApprox.values" % key
+            return False, ("landscaper(%s): transformer output differs from PersLandscapeApprox.values on the configured "
+                           "grid (user-fixed ends: %s)" % (key, c.get("fix", "both")))
     # vectorize reproduces the exact landscape (its own breakpoints) at the grid nodes
     if "vec" in o:
         v = o["vec"]
@@ -641,6 +683,9 @@ def coq_judge(cases, outs, results):
     for i, (c, o) in enumerate(zip(cases, outs)):
         if c.get("big"):
             verdicts[i] = "skip:size (thousands of bars: vm_compute of the model is not run, predicate only)"
+            continue
+        if "refit" in o and o["refit"] != o.get("land"):
+            verdicts[i] = "disagree:a refitted transformer differs from a fresh one (model: fit depends only on the user's start/stop)"
             continue
         t = _term(c, o)
         if t is not None:
